@@ -211,7 +211,7 @@ SCands(bias) ==
 SLasts(f, bias) ==
   LET later == SLater(f)
       big == {k \in later : Cardinality(RangeTrue(f, k)) >= 3}
-      sib == {k \in later : SibPresent(k)}
+      sib == {k \in later : SibPresent(k) /\ (f.j = H => k # f.k /\ k # FlipAt(f.k, H))}    \* ... under ANOTHER bottom-level binary node
       bigsib == big \cap sib IN
   IF bias \in {3, 6} /\ bigsib # {} THEN bigsib
   ELSE IF bias \in {3, 6} /\ sib # {} THEN sib
